@@ -186,7 +186,7 @@ static void op_new(struct W* w, const char* op) {
       *r = c; break;
     }
     case 't': case 'r': {
-      var K = imod(A(1), 2) ? String : Int;
+      var K = imod(A(1), 3) == 0 ? Int : imod(A(1), 3) == 1 ? String : Pt;   /* Pt: the user type's own Hash / Cmp */
       var V = tcode(A(2));
       var c = op[1] == 't' ? new(Table, K, V) : new(Tree, K, V);
       int64_t n = imod(A(3), 24);
@@ -338,6 +338,42 @@ static void op_exec(struct W* w, const char* op) {
     remove(path);
     return;
   }
+  if (strcmp(op, "hp") == 0) {        /* documentation of a built-in type through the Help class */
+    var TS[] = { Int, Float, String, Array, List, Table, Tree, Tuple, Range, Ref, File, Function, Exception, Type };
+    var t = TS[imod(A(0), (int64_t)(sizeof TS / sizeof TS[0]))];
+    var s = new(String);
+    int pos = help_to(s, 0, t);
+    uint64_t h = 1469598103934665603ULL;
+    for (char* c = c_str(s); *c; c++) { h ^= (unsigned char)*c; h *= 1099511628211ULL; }
+    P("%s:%d,%zu,%" PRIx64, c_str(t), pos, len(s), h);
+    return;
+  }
+  if (strcmp(op, "tf") == 0) {        /* throw out of a foreach over a container, catch-all handler */
+    var c = w->R[imod(A(0), NREG)];
+    if (c is NULL or not (is_seq(c) or is_map(c))) { P("-"); return; }
+    volatile int64_t seen = 0; int64_t stop = imod(A(1), 6);
+    try {
+      foreach (i in c) { if (seen == stop) throw(ErrB, "at %i", $I(seen)); seen++; }
+      P("end");
+    } catch (e) {
+      P("caught:%s", uexn(e));
+    }
+    P(",seen=%" PRId64 ",depth=%d", (int64_t)seen, (int)len(current(Exception)));
+    return;
+  }
+  if (strcmp(op, "rw") == 0) {        /* raw and root allocation: objects the collector does not own / treats as roots */
+    var a = new_raw(Array, Int);
+    int64_t n = imod(A(0), 30), s1 = 0, s2 = 0;
+    for (int64_t i = 0; i < n; i++) push(a, $I(A(1) + i));
+    var b = new_root(List, String);
+    for (int64_t i = 0; i < imod(A(1), 9); i++) { char wb[64]; word(A(2) + i, wb); push(b, $S(wb)); }
+    for (int64_t i = 0; i < 300; i++) { var g = new(Int, $I(i)); s2 += c_int(g) % 2; }   /* garbage: may collect */
+    foreach (x in a) { s1 += c_int(x); }
+    foreach (x in b) { s2 += (int64_t)len(x); }
+    P("%" PRId64 ",%" PRId64 ",%zu", s1, s2, len(b));
+    del_raw(a); del_root(b);
+    return;
+  }
   if (strcmp(op, "D") == 0) {         /* dump every register */
     for (int i = 0; i < NREG; i++) {
       if (w->R[i] is NULL) continue;
@@ -367,6 +403,18 @@ static void op_exec(struct W* w, const char* op) {
     return;
   }
   if (strcmp(op, "sh") == 0) { pv(x); return; }
+  if (strcmp(op, "lk") == 0) {        /* show then look: Int only (Float: D8, String: D7) */
+    if (T isnt Int) { P("-"); return; }
+    var s = new(String); int p1 = show_to(x, s, 0);
+    var y2 = new(Int); int p2 = look_from(y2, s, 0);
+    P("%d,%d,%" PRId64, p1, p2, c_int(y2));
+    return;
+  }
+  if (strcmp(op, "iq") == 0) {        /* instance queries and an identity cast */
+    P("%d%d%d%d%d%d", (int)implements(x, Cmp), (int)type_implements(T, Hash), (int)implements_method(x, Get, get),
+      (int)(instance(x, Len) isnt NULL), (int)(type_instance(T, Show) isnt NULL), (int)(cast(x, T) is x));
+    return;
+  }
   if (strcmp(op, "ln") == 0) { if (implements(x, Len) and T isnt Ref) P("%zu", len(x)); else P("-"); return; }
   if (strcmp(op, "ha") == 0) {
     bool ok = T is Int or T is Float or T is String or T is Pt
@@ -574,7 +622,7 @@ static void op_exec(struct W* w, const char* op) {
 static void guarded(struct W* w, const char* op) {
   /* the exception operations carry their own handlers and run outside any other try block: a handled
      exception inside an enclosing try would be seen again by the enclosing catch (D3) */
-  if (strcmp(op, "tc") == 0 or strcmp(op, "tn") == 0) { op_exec(w, op); return; }
+  if (strcmp(op, "tc") == 0 or strcmp(op, "tn") == 0 or strcmp(op, "tf") == 0) { op_exec(w, op); return; }
   try {
     op_exec(w, op);
   } catch (e) {
